@@ -1053,6 +1053,14 @@ class CSA:
                 else:
                     raise Undecided('CSA: break/continue leaves a closure')
             return outs
+        if meth in ('map_err', 'or_else') and r[0] == 'res' and a and a[0][0] == 'closure':
+            # the closure runs on the error side (it may clean up before handing the error on)
+            if r[1] == 'ok':
+                return V(r)
+            outs = []
+            for s3, e3, k3, v3 in self.apply_closure(a[0], [r[2]], s, en):
+                outs.append((s3, en, 'v', ('res', 'err', v3) if meth == 'map_err' else v3))
+            return outs
         if meth in ('map_err', 'ok_or', 'ok_or_else'):
             if r[0] == 'res':
                 return V(r)
